@@ -11,6 +11,7 @@ Input classes every consumer of `gen_scenario` sees (all of them well-formed: si
     designator (UTC), with a space for the `T`, with 1..6 fraction digits, or as the datetime objects a YAML loader yields (aware UTC,
     aware with another offset, naive) -- far from the bundles, or EXACTLY on the first inception / last expiration (the window is
     inclusive) and one microsecond outside of nothing (1 us before / after); `valid_until` present / absent;
+  * the `algorithm` by its AlgorithmDNSSEC name (one name per number) or as the enum member itself;
   * key NAMES (schema / `keys:` mapping) and token LABELS at the edges of ^[\\w_]+$: a lone underscore, digits only, one character,
     non-ASCII word characters and digits, forty characters.
 `describe()` states the spelled entries and, in meta["spellings"], which style each value was written in."""
@@ -277,6 +278,13 @@ def gen_scenario(r: Any, quick: bool = True, n_bundles: int | None = None, force
         }
         k["entry"] = C.ksk_config_entry(k["label"], tk, a, with_tag=r.random() < 0.5, with_ds=r.random() < 0.5, hash_using_hsm=hh)
         spellings[name] = respell_entry(r, k["entry"], first_inc_us, last_exp_us)
+        if r.random() < 0.15:
+            # the algorithm given as the AlgorithmDNSSEC member itself (what a caller of KSKMConfig.from_dict may pass) instead of its name
+            from kskm.common.data import AlgorithmDNSSEC
+
+            assert AlgorithmDNSSEC(a).name == k["entry"]["algorithm"]  # the name written otherwise IS the member's name
+            k["entry"]["algorithm"] = AlgorithmDNSSEC(a)
+            spellings[name]["algorithm"] = "enum-member"
         sc.ksks[name] = k
     # schema: any subsets; at least one signer per slot so that algorithm sets agree
     for slot in range(1, n + 1):
